@@ -7,6 +7,7 @@ inner-product space `E` (`eOps`), which covers `rn`, weighted `rn`, `uniform_dis
 product spaces at once: the functional's OWN inner product is the inner product of `E`.
 -/
 import OdlModel.Lemmas.Functionals
+import OdlModel.Lemmas.WeightedSpace
 import Mathlib.Analysis.InnerProductSpace.Calculus
 import Mathlib.Analysis.InnerProductSpace.Adjoint
 import Mathlib.Analysis.Calculus.Gradient.Basic
@@ -45,7 +46,7 @@ theorem C09.lip_left_scalar {G : E → E} {L : ℝ} (s : ℝ) (h : LipOn G L) :
   exact mul_le_mul_of_nonneg_left (h x y) (abs_nonneg s)
 
 /-- `FunctionalRightScalarMult`: the gradient `x ↦ s·∇f(s·x)` is `|s|²·L`-Lipschitz (the value
-passed since 9cf3ca6; `|s|·L` is NOT a bound, see `C09.lip_right_scalar_abs_fails`). -/
+passed since 9cf3ca6; `|s|·L` is NOT a bound, see `C09.lip_right_scalar_old_fails`). -/
 theorem C09.lip_right_scalar {G : E → E} {L : ℝ} (s : ℝ) (h : LipOn G L) :
     LipOn (fun x => s • G (s • x)) (|s| * |s| * L) := by
   intro x y
@@ -170,8 +171,8 @@ theorem C09.lipschitz_sound (μ : E → E → E) (cv : Builtin ℝ → E → ℝ
   | menv f P σ _ => simp [Fn.lip, Lip.eval] at h
   | dconj f _ => simp [Fn.lip, Lip.eval] at h
 
-/-- Non-vacuity: on `E = ℝ`, `L2NormSquared * 3` gets `grad_lipschitz = 18` and the theorem
-applies to it. -/
+/-- Non-vacuity (leaf-free tree): on `E = ℝ`, `L2NormSquared * 3` gets `grad_lipschitz = 18`; an
+example with a Huber leaf on a weighted space is at the end of the file. -/
 example : LipOn (fun x : ℝ => (Fn.rscal .l2sq 3 : Fn ℝ ℝ).grad
     (eOps (· * ·) (fun _ _ => 0) (fun _ _ => true) (fun _ _ => 0)) x) 18 := by
   refine C09.lipschitz_sound (E := ℝ) _ _ _ _ ?_ (.rscal .l2sq 3) 18 ?_
@@ -190,13 +191,26 @@ example : LipOn (fun x : ℝ => (Fn.rscal .l2sq 3 : Fn ℝ ℝ).grad
   · simp [Fn.lip, Lip.scale, Lip.ofK, Lip.eval, rootsVal, absK_eq_abs, two]
     norm_num
 
-/-- The pre-9cf3ca6 constant `|s|·L` of `FunctionalRightScalarMult` is not a Lipschitz bound:
-on `E = ℝ`, `f = ‖·‖²` (`L = 2`), `s = 3`: the gradient `x ↦ 18x` is not 6-Lipschitz. -/
-theorem C09.lip_right_scalar_abs_fails :
-    ¬ LipOn (fun x : ℝ => (3 : ℝ) • ((2 : ℝ) • ((3 : ℝ) • x))) (|(3 : ℝ)| * 2) := by
-  intro h
-  have := h 1 0
-  norm_num at this
+namespace OdlModel.C09
+/-- `FunctionalRightScalarMult.grad_lipschitz` as computed BEFORE fix 9cf3ca6: `|s|·L`. -/
+noncomputable def rscalLipOld (s : ℝ) (L : Lip ℝ) : Lip ℝ := Lip.scale (absK s) L
+end OdlModel.C09
+
+/-- Sensitivity, on the model: the OLD propagation rule `rscalLipOld` (`|s|·L`) applied to the
+model's own constant of `L2NormSquared` gives `6` for `L2NormSquared * 3`, which is NOT a
+Lipschitz constant of the model gradient `(Fn.rscal .l2sq 3).grad` (`x ↦ 18x` on `E = ℝ`). -/
+theorem C09.lip_right_scalar_old_fails :
+    Lip.eval (OdlModel.C09.rscalLipOld 3 ((Fn.l2sq : Fn ℝ ℝ).lip
+      (eOps (· * ·) (fun _ _ => 0) (fun _ _ => true) (fun _ _ => 0)))) = some 6 ∧
+    ¬ LipOn (fun x : ℝ => (Fn.rscal .l2sq 3 : Fn ℝ ℝ).grad
+      (eOps (· * ·) (fun _ _ => 0) (fun _ _ => true) (fun _ _ => 0)) x) 6 := by
+  constructor
+  · simp [OdlModel.C09.rscalLipOld, Fn.lip, Lip.scale, Lip.ofK, Lip.eval, rootsVal, absK_eq_abs, two]
+    norm_num
+  · intro h
+    have := h 1 0
+    simp [Fn.grad, eOps, two] at this
+    norm_num at this
 
 /-! ### Gradients -/
 section grad
@@ -474,6 +488,16 @@ example : HasGradientAt
   apply C09.grad_sound
   refine ⟨trivial, trivial, ?_⟩
   simp [Fn.value, eOps]
+/-- Non-vacuity of `grad_moreau_envelope`: `f = ‖·‖²` on `E = ℝ`, `σ = 1`, `P x = x/3`
+(`= l2sqCode 1 1 x 0`, the coded `ProximalL2Squared`): the subgradient hypothesis holds, so
+`x − x/3` is the gradient of the envelope. -/
+example (x : ℝ) : HasGradientAt (fun z : ℝ => (z / 3) * (z / 3) + 1 / (2 * 1) * ‖z - z / 3‖ ^ 2)
+    ((1 / (1 : ℝ)) • x - (1 / (1 : ℝ)) • (x / 3)) x := by
+  refine C09.grad_moreau_envelope (f := fun z : ℝ => z * z) (σ := 1) one_pos (fun z => z / 3) ?_ x
+  intro a z
+  simp only [one_div, inv_one, one_smul, RCLike.inner_apply', conj_trivial]
+  nlinarith [sq_nonneg (z - a / 3)]
+
 end grad
 
 /-! ### Concrete built-ins on weighted lists (any ordered field, all lengths) -/
@@ -640,3 +664,143 @@ example : HasFDerivAt (fun z : Fin 2 → ℝ => ∑ i, (1 / 4 : ℝ) * absK (z i
     ![1, -2] :=
   C09.separable_grad (fun _ => 1 / 4) (fun s => absK s) signK ![1, -2]
     (fun i => C09.l1_entry_deriv _ (by fin_cases i <;> simp))
+
+/-! ### The leaf hypotheses DISCHARGED on the weighted spaces `WSp w` -/
+open OdlModel.C09
+section weighted
+variable {n : ℕ} (w : Fin n → ℝ) [hw : Fact (∀ i, 0 < w i)]
+
+theorem C09.wOps_cgrad_val (b : Builtin ℝ) (φ : ℝ → ℝ)
+    (hb : ∀ l, (listOps (List.ofFn w)).cgrad b l = l.map φ) (x : WSp w) :
+    ((wOps w).cgrad b x).val = fun i => φ (x.val i) := by
+  show (ofL ((listOps (List.ofFn w)).cgrad b (List.ofFn x.val)) : Fin n → ℝ) = _
+  rw [hb, ofL_map_ofFn]
+
+theorem C09.wOps_norm_sq (a : WSp w) :
+    ‖a‖ ^ 2 = innerW (List.ofFn w) (List.ofFn a.val) (List.ofFn a.val) := by
+  rw [← real_inner_self_eq_norm_sq, innerW_ofFn, WSp.inner_def]
+
+/-- `Huber.grad_lipschitz = 1/γ` on the weighted spaces: the leaf hypothesis of
+`lipschitz_sound`, DISCHARGED for the list-computed coordinate-wise built-ins. -/
+theorem C09.wOps_leaf_lipschitz (b : Builtin ℝ) (L : ℝ)
+    (h : Lip.eval (Fn.lip (wOps w) (.coord b)) = some L) : LipOn ((wOps w).cgrad b) L := by
+  cases b with
+  | l1 => simp [Fn.lip, Lip.eval] at h
+  | indLinf => simp [Fn.lip, Lip.eval] at h
+  | huber γ =>
+      by_cases hγ : 0 < γ
+      · simp [Fn.lip, hγ, Lip.ofK, Lip.eval, rootsVal] at h
+        subst h
+        intro x y
+        have hx := C09.wOps_cgrad_val w (.huber γ) (huberGrad1 γ) (fun l => rfl) x
+        have hy := C09.wOps_cgrad_val w (.huber γ) (huberGrad1 γ) (fun l => rfl) y
+        have key := C09.huber_lipschitz γ hγ (List.ofFn w) (List.ofFn x.val) (List.ofFn y.val)
+          (weights_nonneg w)
+        simp only [listOps] at key
+        have e1 : List.ofFn ((wOps w).cgrad (.huber γ) x - (wOps w).cgrad (.huber γ) y).val
+            = List.zipWith (· - ·) ((List.ofFn x.val).map (huberGrad1 γ))
+                ((List.ofFn y.val).map (huberGrad1 γ)) := by
+          rw [WSp.val_sub, hx, hy, List.map_ofFn, List.map_ofFn, zipWith_ofFn]; rfl
+        have e2 : List.ofFn (x - y).val = List.zipWith (· - ·) (List.ofFn x.val) (List.ofFn y.val) := by
+          rw [WSp.val_sub, zipWith_ofFn]; rfl
+        have hsq : ‖(wOps w).cgrad (.huber γ) x - (wOps w).cgrad (.huber γ) y‖ ^ 2
+            ≤ (γ⁻¹ * ‖x - y‖) ^ 2 := by
+          rw [C09.wOps_norm_sq, e1, mul_pow, C09.wOps_norm_sq, e2]
+          simpa [one_div] using key
+        exact (pow_le_pow_iff_left₀ (norm_nonneg _) (by positivity) two_ne_zero).mp hsq
+      · simp [Fn.lip, hγ, Lip.eval] at h
+
+/-- `lipschitz_sound` on the weighted spaces, WITHOUT leaf hypotheses. -/
+theorem C09.lipschitz_sound_weighted (t : Fn (WSp w) ℝ) (L : ℝ)
+    (h : Lip.eval (t.lip (wOps w)) = some L) : LipOn (fun x => t.grad (wOps w) x) L :=
+  C09.lipschitz_sound _ _ _ _ (C09.wOps_leaf_lipschitz w) t L h
+
+/-- The identity as a continuous linear equivalence between `WSp w` and `Fin n → ℝ`. -/
+noncomputable def C09.wEquiv : WSp w ≃L[ℝ] (Fin n → ℝ) :=
+  LinearEquiv.toContinuousLinearEquiv
+    { toFun := WSp.val, invFun := WSp.of, map_add' := fun _ _ => rfl, map_smul' := fun _ _ => rfl,
+      left_inv := fun _ => rfl, right_inv := fun _ => rfl }
+
+/-- A weighted separable sum `z ↦ Σ wᵢ φ(zᵢ)` on `WSp w` has the GRADIENT `(φ'(xᵢ))ᵢ` w.r.t. the
+weighted inner product. -/
+theorem C09.weighted_separable_gradient (φ φ' : ℝ → ℝ) (x : WSp w)
+    (h : ∀ i, HasDerivAt φ (φ' (x.val i)) (x.val i)) :
+    HasGradientAt (fun z : WSp w => ∑ i, w i * φ (z.val i)) (WSp.of fun i => φ' (x.val i)) x := by
+  have h0 := C09.separable_grad w φ φ' x.val h
+  have h1 : HasFDerivAt (fun z : WSp w => ∑ i, w i * φ (z.val i))
+      ((∑ i, (w i * φ' (x.val i)) • (ContinuousLinearMap.proj i : (Fin n → ℝ) →L[ℝ] ℝ)).comp
+        (C09.wEquiv w : WSp w →L[ℝ] (Fin n → ℝ))) x :=
+    HasFDerivAt.comp x (f := fun z : WSp w => (C09.wEquiv w) z) h0 (C09.wEquiv w).hasFDerivAt
+  refine C09.hasGradientAt_of_fderiv h1 ?_
+  intro d
+  rw [WSp.inner_def]
+  simp only [ContinuousLinearMap.comp_apply, ContinuousLinearMap.sum_apply,
+    ContinuousLinearMap.smul_apply, ContinuousLinearMap.proj_apply, smul_eq_mul]
+  rfl
+end weighted
+
+section weighted2
+variable {n : ℕ} (w : Fin n → ℝ) [hw : Fact (∀ i, 0 < w i)]
+
+namespace OdlModel.C09
+/-- Points at which a coordinate-wise built-in is differentiable (no entry at a kink). -/
+def LeafOK {n : ℕ} : Builtin ℝ → (Fin n → ℝ) → Prop
+  | .l1, z => ∀ i, z i ≠ 0
+  | .huber γ, z => 0 < γ ∧ ∀ i, |z i| ≠ γ
+  | .indLinf, _ => False
+end OdlModel.C09
+
+/-- The leaf hypothesis of `grad_sound`, DISCHARGED on the weighted spaces for the
+list-computed L1 and Huber: away from the kinks, the coded gradient (`sign(x)`, resp. the
+Huber clamp) is the gradient of the coded value w.r.t. the weighted inner product. -/
+theorem C09.wOps_leaf_wf (b : Builtin ℝ) (x : WSp w) (h : LeafOK b x.val) :
+    WF (wOps w) (.coord b) x := by
+  cases b with
+  | l1 =>
+      have hv : (wOps w).cval .l1 = fun z : WSp w => ∑ i, w i * absK (z.val i) :=
+        funext fun z => l1W_ofFn w z.val
+      have hg : (wOps w).cgrad .l1 x = WSp.of fun i => signK (x.val i) :=
+        C09.wOps_cgrad_val w .l1 signK (fun l => rfl) x
+      show HasGradientAt ((wOps w).cval .l1) ((wOps w).cgrad .l1 x) x
+      rw [hv, hg]
+      exact C09.weighted_separable_gradient w (fun s => absK s) signK x
+        (fun i => C09.l1_entry_deriv _ (h i))
+  | indLinf => exact h.elim
+  | huber γ =>
+      obtain ⟨hγ, hne⟩ := h
+      have hv : (wOps w).cval (.huber γ) = fun z : WSp w => ∑ i, w i * huberVal1 γ (z.val i) :=
+        funext fun z => huberW_ofFn γ w z.val
+      have hg : (wOps w).cgrad (.huber γ) x = WSp.of fun i => huberGrad1 γ (x.val i) :=
+        C09.wOps_cgrad_val w (.huber γ) (huberGrad1 γ) (fun l => rfl) x
+      show HasGradientAt ((wOps w).cval (.huber γ)) ((wOps w).cgrad (.huber γ) x) x
+      rw [hv, hg]
+      exact C09.weighted_separable_gradient w (huberVal1 γ) (huberGrad1 γ) x
+        (fun i => C09.huber_entry_deriv γ _ hγ (hne i))
+end weighted2
+
+section example_weighted
+instance exw9 : Fact (∀ i, 0 < (![1 / 4, 1 / 4] : Fin 2 → ℝ) i) :=
+  ⟨by intro i; fin_cases i <;> norm_num⟩
+
+/-- Non-vacuity with REAL leaves, on `uniform_discr` with two cells of volume 1/4:
+`f(z) = 3·Huber_{1/2}(z) + ‖z − (3, 0)‖₁` at `x = (1, −2)`: the coded gradient is the gradient. -/
+example : HasGradientAt
+    (fun z => (Fn.sum (.lscal 3 (.coord (.huber (1 / 2)))) (.trans (.coord .l1) (WSp.of ![3, 0])) :
+      Fn (WSp ![1 / 4, 1 / 4]) ℝ).value (wOps ![1 / 4, 1 / 4]) z)
+    ((Fn.sum (.lscal 3 (.coord (.huber (1 / 2)))) (.trans (.coord .l1) (WSp.of ![3, 0])) :
+      Fn (WSp ![1 / 4, 1 / 4]) ℝ).grad (wOps ![1 / 4, 1 / 4]) (WSp.of ![1, -2])) (WSp.of ![1, -2]) := by
+  apply C09.grad_sound
+  refine ⟨C09.wOps_leaf_wf _ _ _ ⟨by norm_num, ?_⟩, C09.wOps_leaf_wf _ _ _ ?_⟩
+  · intro i; fin_cases i <;> simp [WSp.val_of] <;> norm_num
+  · intro i
+    show ((WSp.of ![1, -2] : WSp ![1 / 4, 1 / 4]) - WSp.of ![3, 0]).val i ≠ 0
+    fin_cases i <;> simp [WSp.val_sub, WSp.val_of] <;> norm_num
+
+/-- … and `2·Huber_{1/2}` gets `grad_lipschitz = 4`, a valid bound for its coded gradient. -/
+example : LipOn (fun x => (Fn.lscal 2 (.coord (.huber (1 / 2))) : Fn (WSp ![1 / 4, 1 / 4]) ℝ).grad
+    (wOps ![1 / 4, 1 / 4]) x) 4 := by
+  apply C09.lipschitz_sound_weighted
+  have h : (0 : ℝ) < 1 / 2 := by norm_num
+  simp [Fn.lip, h, Lip.scale, Lip.ofK, Lip.eval, rootsVal, absK_eq_abs]
+  norm_num
+end example_weighted
